@@ -28,7 +28,7 @@ func init() {
 		RequiredCounters: []string{"accepted_expected_and_observed", "rejected_expected_and_observed", "order_checked_by_reference", "alias_rejections", "nested_reads"},
 		Assumptions:      []string{"math/big ModSqrt/Jacobi are the oracle for residuosity; the reference decoder reproduces the 16 published generator encodings and rejects the 16 published non-subgroup encodings"},
 		Plan: func(tier string) []Child {
-			return shardsVar(pick(tier, 12, 16), Child{Flavour: "plain", NCPU: 1})
+			return plus386(shardsVar(pick(tier, 12, 16), Child{Flavour: "plain", NCPU: 1}), 1)
 		},
 		Run: runC06,
 	})
@@ -76,6 +76,9 @@ func c06compressed(c *mon.Ctx, b []byte, cls string, rng *rand.Rand) {
 			return &cp, err
 		}},
 		{"ReadPoint", func() (*banderwagon.Element, error) { return common.ReadPoint(bytes.NewReader(b)) }},
+		{"ReadPoint/bytes.Buffer", func() (*banderwagon.Element, error) {
+			return common.ReadPoint(bytes.NewBuffer(b)) // reads straight out of the caller's slice
+		}},
 		{"ReadPoint/1byte", func() (*banderwagon.Element, error) {
 			return common.ReadPoint(iotest.OneByteReader(bytes.NewReader(b)))
 		}},
@@ -237,6 +240,29 @@ func runC06(c *mon.Ctx) {
 }
 
 func runC06body(c *mon.Ctx) {
+	// the very first decoding of the process (nothing has touched the library's decoders, tables or memos yet) is a
+	// special encoding that differs per shard: the identity (32 zero bytes), the generator, an invalid string followed by
+	// the identity, the identity in uncompressed form
+	c.Case("first-decode-of-the-process", func() {
+		rng := c.Rand("first-decode")
+		zeros := make([]byte, 32)
+		g := ref.Serialize(ref.Generator())
+		switch c.Shard % 4 {
+		case 0:
+			c06firstIdentity(c)
+			c06compressed(c, zeros, "first-decode:identity", rng)
+		case 1:
+			c06compressed(c, g[:], "first-decode:generator", rng)
+			c06compressed(c, zeros, "second-decode:identity", rng)
+		case 2:
+			bad := be32(big.NewInt(2))
+			c06compressed(c, bad, "first-decode:small-x", rng)
+			c06firstIdentity(c)
+		default:
+			c06uncompressed(c, append(make([]byte, 32), be32(new(big.Int).Sub(ref.P, bigOne))...), "u:first-decode:identity(0,p-1)", rng)
+			c06compressed(c, zeros, "second-decode:identity", rng)
+		}
+	})
 	if c.Mine(0) {
 		c.Case("y-adjacent-to-thresholds", func() {
 			rng := c.Rand("thresholds")
@@ -420,3 +446,21 @@ var (
 	c06kept  = Retainer{Cap: 80}
 	c06keepN int
 )
+
+// c06firstIdentity decodes 32 zero bytes with SetBytes and looks at the element itself (not only at its class): it must
+// be a valid representation of the identity, equal to Identity and to itself.
+func c06firstIdentity(c *mon.Ctx) {
+	var e banderwagon.Element
+	if err := e.SetBytes(make([]byte, 32)); err != nil {
+		c.Fail("rejected-valid/SetBytes/identity", "SetBytes rejects the identity's encoding: "+err.Error(), nil)
+		return
+	}
+	X, Y, Z := e.VerifCoords()
+	if !X.IsZero() || Y.IsZero() || Z.IsZero() {
+		c.Fail("decoded-degenerate/SetBytes/identity", fmt.Sprintf("SetBytes(00..00) gives the coordinates (%s, %s, %s), not a representation of the identity", FpToBig(&X).Text(16), FpToBig(&Y).Text(16), FpToBig(&Z).Text(16)), nil)
+	}
+	if !e.Equal(&banderwagon.Identity) || !e.Equal(&e) {
+		c.Fail("decoded-identity-not-equal", "the element decoded from the identity's encoding is not Equal to Identity / to itself", nil)
+	}
+	c.Count("identity_decoded_first", 1)
+}
